@@ -103,6 +103,13 @@ def score_one(I, case):
     elif case.get("conj") is not None:
         from props.common import conj_prov
         prov = conj_prov(I, case["conj"], case["n_units"])[0]
+    score_kw = {}
+    if case.get("named_units") is not None:
+        # units named by string keys; the caller asks for some of them BY NAME, in an order of its own (`score(..., units=[...])`)
+        from props.common import conj_prov
+        nu_ = case["named_units"]
+        prov = conj_prov(I, [[u] for u in nu_["rows"]], len(nu_["names"]), keys=list(nu_["names"]))[0]
+        score_kw["units"] = list(nu_["ask"])
     kw = dict(case.get("kw", {}))
     imp = I["imp"].ShapleyImportance(method=case["method"], utility=util, **kw)
     perms = None
@@ -116,7 +123,7 @@ def score_one(I, case):
     imp.fit(X, y, provenance=prov)
     g1 = global_state()
     try:
-        s = np.asarray(imp.score(Xv, yv), dtype=float)
+        s = np.asarray(imp.score(Xv, yv, **score_kw), dtype=float)
     finally:
         g2 = global_state()
         for call, d in (("fit", global_state_diff(g0, g1)), ("score", global_state_diff(g1, g2))):
